@@ -33,3 +33,31 @@ def invalid_arguments_then_stop():
 
 if __name__ == "__main__":
     print(invalid_arguments_then_stop())
+
+
+def stop_while_uod_commands_follow_back_to_back():
+    """Stop requested at various ticks of a method made of back-to-back UOD commands: nothing may stay allocated after Stop"""
+    from openpectus.test.engine.test_engine import create_test_uod
+    from openpectus.test.engine.utility_methods import EngineTestRunner
+    logging.disable(logging.CRITICAL)
+    try:
+        for delay in range(2, 12):
+            runner = EngineTestRunner(create_test_uod, "Reset\noverlap1\noverlap2\nReset\noverlap1\noverlap2\n", fail_on_log_error=False)
+            with runner.run() as instance:
+                e = instance.engine
+                instance.start()
+                for _ in range(delay):
+                    instance.run_ticks(1)
+                e.execute_control_command_from_user("Stop")
+                for _ in range(6):
+                    try:
+                        instance.run_ticks(1)
+                    except Exception:
+                        pass
+                left = list(e.uod.command_instances.keys())
+                if left:
+                    return {"violated": True, "scenario": f"Stop requested {delay} tick(s) after Start in a method of back-to-back UOD commands",
+                            "instances_after_stop": left, "system_state": str(e._system_tags["System State"].get_value())}
+        return {"violated": False, "scenarios": 10}
+    finally:
+        logging.disable(logging.NOTSET)
